@@ -114,6 +114,30 @@ pub fn c13_ecube_constructors() {
     kani::cover!(true, "reached");
 }
 
+/// Loop-free construction of a term over variables < 6 (the enumeration harness needs a small unwind bound).
+fn mk_ecube_small(v: u32, x: bool) -> Ecube {
+    let mut e = if x { Ecube::one() } else { Ecube::zero() };
+    if v & 1 != 0 {
+        e = e ^ Ecube::nth_var(0);
+    }
+    if v & 2 != 0 {
+        e = e ^ Ecube::nth_var(1);
+    }
+    if v & 4 != 0 {
+        e = e ^ Ecube::nth_var(2);
+    }
+    if v & 8 != 0 {
+        e = e ^ Ecube::nth_var(3);
+    }
+    if v & 16 != 0 {
+        e = e ^ Ecube::nth_var(4);
+    }
+    if v & 32 != 0 {
+        e = e ^ Ecube::nth_var(5);
+    }
+    e
+}
+
 /// Ecube::all(n): each of the 2^(n+1) terms over variables < n exactly once.
 macro_rules! c13_ecube_all {
     ($name:ident, $n:literal, $u:literal) => {
@@ -122,8 +146,9 @@ macro_rules! c13_ecube_all {
         pub fn $name() {
             const N: usize = $n;
             let v: u32 = kani::any();
+            kani::assume(v < 64);
             let x: bool = kani::any();
-            let c = mk_ecube(v, x);
+            let c = mk_ecube_small(v, x);
             let mut count = 0usize;
             let mut total = 0usize;
             for e in Ecube::all(N) {
@@ -142,70 +167,60 @@ macro_rules! c13_ecube_all {
     };
 }
 
-/// A literal term of an n-variable Soes chosen by a symbolic selector: one, x_i or !x_i (all have one cube).
-fn any_literal_soes(n: usize) -> (Soes, u32, bool) {
-    let sel: u8 = kani::any();
-    kani::assume(sel < 3);
-    if sel == 0 || n == 0 {
-        (Soes::one(n), 0, true)
+/// A literal operand of an n-variable Soes.  The KIND is concrete per harness (0: zero, 1: one, 2: x_i,
+/// 3: !x_i) so that every Vec has a concrete length and no pointer is chosen symbolically (a symbolic
+/// choice between differently allocated Soes values makes CBMC case-split every later access:
+/// measured >20 min instead of 10 s); the variable index i is symbolic.
+fn lit(n: usize, kind: u8, m: u32) -> (Soes, bool) {
+    if kind == 0 {
+        return (Soes::zero(n), false);
+    }
+    if kind == 1 {
+        return (Soes::one(n), true);
+    }
+    let i: usize = kani::any();
+    kani::assume(i < n);
+    if kind == 2 {
+        (Soes::nth_var(n, i), (m >> i) & 1 == 1)
     } else {
-        let i: usize = kani::any();
-        kani::assume(i < n);
-        if sel == 1 {
-            (Soes::nth_var(n, i), 1u32 << i, false)
-        } else {
-            (Soes::nth_var_inv(n, i), 1u32 << i, true)
-        }
+        (Soes::nth_var_inv(n, i), (m >> i) & 1 == 0)
     }
 }
 
 /// Soes built from constructors and `|`: value is the OR of the terms, `|` (4 forms) denotes OR,
 /// conversion to Lut tabulates the same function, is_zero / is_one only for the respective constants.
-/// $z0..$z3: whether the k-th operand is the zero Soes (concrete pattern, so that Vec lengths are concrete).
 macro_rules! c13_soes {
-    ($name:ident, $n:literal, $z0:literal, $z1:literal, $z2:literal, $z3:literal, $u:literal) => {
+    ($name:ident, $n:literal, $k0:literal, $k1:literal, $k2:literal, $k3:literal, $u:literal) => {
         #[kani::proof]
         #[kani::unwind($u)]
         pub fn $name() {
             const N: usize = $n;
             let m = any_m(N);
-            let zs = [$z0, $z1, $z2, $z3];
-            let mut exp = false;
-            let mut parts: [Soes; 4] = [Soes::zero(N), Soes::zero(N), Soes::zero(N), Soes::zero(N)];
-            let mut k = 0;
-            while k < 4 {
-                if !zs[k] {
-                    let (s, v, x) = any_literal_soes(N);
-                    let tv = parity32(v & (m as u32)) ^ x;
-                    assert!(s.value(m) == tv);
-                    assert!(!s.is_zero());
-                    exp |= tv;
-                    parts[k] = s;
-                } else {
-                    assert!(parts[k].is_zero());
-                    assert!(!parts[k].value(m));
-                }
-                k += 1;
-            }
+            let mm = m as u32;
+            let (p0, e0) = lit(N, $k0, mm);
+            let (p1, e1) = lit(N, $k1, mm);
+            let (p2, e2) = lit(N, $k2, mm);
+            let (p3, e3) = lit(N, $k3, mm);
+            assert!(p0.value(m) == e0 && p1.value(m) == e1 && p2.value(m) == e2 && p3.value(m) == e3);
+            assert!(p0.is_zero() == ($k0 == 0) && p1.is_zero() == ($k1 == 0));
+            let exp = e0 || e1 || e2 || e3;
             // the four reference forms of |
-            let ab1 = parts[0].clone() | parts[1].clone();
-            let ab2 = &parts[0] | parts[1].clone();
-            let ab3 = &parts[0] | &parts[1];
-            let ab4 = parts[0].clone() | &parts[1];
-            assert!(ab1 == ab2 && ab2 == ab3 && ab3 == ab4);
-            assert!(ab1.value(m) == (parts[0].value(m) || parts[1].value(m)));
-            let cd = &parts[2] | &parts[3];
-            let s = &ab1 | &cd;
+            let ab = &p0 | &p1;
+            let ab2 = p0.clone() | p1.clone();
+            let ab3 = &p0 | p1.clone();
+            let ab4 = p0.clone() | &p1;
+            assert!(ab == ab2 && ab == ab3 && ab == ab4);
+            assert!(ab.value(m) == (e0 || e1));
+            let cd = &p2 | &p3;
+            let s = &ab | &cd;
             assert!(s.num_vars() == N);
             assert!(s.value(m) == exp);
-            assert!(s.num_cubes() == ab1.num_cubes() + cd.num_cubes());
+            assert!(s.num_cubes() == ab.num_cubes() + cd.num_cubes());
             // tabulation
             let l = Lut::from(&s);
             assert!(l.num_vars() == N);
             assert!(wf(N, l.blocks()));
             assert!(l.value(m) == exp);
-            let l2 = Lut::from(s.clone());
-            assert!(l2 == l);
             // is_zero / is_one never hold for a non-constant or opposite-constant function
             if s.is_zero() {
                 assert!(!exp);
